@@ -417,6 +417,15 @@ func init() {
 			return c
 		},
 		Check: func(c *core.Case, wantSample bool) Result {
+			preamble := c.Index%3 == 0 && len(c.Edges) < 200
+			if preamble {
+				// the property holds after any history of calls: a third of the cases is preceded by a call on the same edge list
+				// with the other cycle breaker (anything remembered per input across calls must not leak into this call)
+				po := c.Opts
+				po.Breaker = 2 - 2*(c.Opts.Breaker/2)
+				po.RandomFlag = false
+				core.Run(c.Edges, po)
+			}
 			res := core.Run(c.Edges, c.Opts)
 			if res.Panic != nil {
 				return noReturn(res.Panic)
@@ -474,6 +483,9 @@ func init() {
 				r.stat("cyclic_inputs_dfs", 1)
 				r.stat("flagged_edges", flagged)
 				r.Nontrivial = flagged >= 2
+			}
+			if preamble {
+				r.stat("preceded_by_call_with_other_breaker", 1)
 			}
 			if wantSample {
 				r.Sample = layoutSample(c, res.Layout, map[string]any{"flagged_edges": flagged})
